@@ -23,6 +23,7 @@ import TantivyModel.Proofs.DocSet.TinySetBridge
 import TantivyModel.Proofs.DocSet.TreeScore1
 import TantivyModel.Proofs.DocSet.TreeScore2
 import TantivyModel.Proofs.DocSet.TreeScore3
+import TantivyModel.Proofs.DocSet.TreeScore4
 import TantivyModel.Model.DocSet.Tree
 /-!
 # C13 — every DocSet is one sorted sequence under any mix of advance and seek
@@ -861,6 +862,26 @@ theorem C13_tree2_reqopt_union_score (fx : Fix) (treq : Tree) (l : List Nat) (g 
                 then groupScore g ((levelDS fx 2).doc (implFinal (levelDS fx 2) s prog)) else 0)) :=
   tree2_reqopt_union_score fx treq l g hr0 hg prog hl hnc hnf hnd
 
+/-- erasing ghost data commutes with every method of the buffered union that a parent or a call program
+uses (`fill_buffer` and `count` aside): `build`, `advance` (refill / drain), `seek` (buffered and far
+branch), `seek_danger`, `fill_bitset_block`, `score` -/
+theorem C13_union_erasure {σ' σ : Type} {C' : DS σ'} {C : DS σ} {ψ : σ' → σ} (h : Hom C' C ψ) (H : Nat) (fx : Fix) :
+    Hom (BUnion.dsNF C' H fx) (BUnion.ds C H fx) (BUnion.State.map ψ) := BUnion.hom h H fx
+
+/-- **SUM union of intersections of leaves (`(+a +b …) (+c +d …) …`), two levels, on the model the driver
+builds and runs**: `score()` is the sum, over the intersections containing the document, of the scores
+of all their leaves -/
+theorem C13_tree2_union_of_intersections_score (fx : Fix) (dense : Bool) (gs : List IGroup)
+    (hs : ∀ g ∈ gs, g.ok) (U : List Nat) (hU : SimpleUnion.IsUnion U (gs.map IGroup.common)) (prog : List Op)
+    (hl : legalProg ⟨U, none⟩ prog = true) (hnc : ∀ op ∈ prog, op ≠ Op.count) (hnf : noFill prog)
+    (hnd : (specFinal ⟨U, none⟩ prog).danger = none) :
+    ∃ s, buildTree fx 2 (.bunion true (gs.map (IGroup.tree dense))) = some s
+      ∧ (levelDS fx 2).doc (implFinal (levelDS fx 2) s prog) = Spec.doc (specFinal ⟨U, none⟩ prog).rest
+      ∧ ((levelDS fx 2).doc (implFinal (levelDS fx 2) s prog) < TERMINATED →
+          ((levelDS fx 2).score (implFinal (levelDS fx 2) s prog)).1
+            = isum gs ((levelDS fx 2).doc (implFinal (levelDS fx 2) s prog))) :=
+  tree2_union_of_inters_score fx dense gs hs U hU prog hl hnc hnf hnd
+
 /-! ### open statements
 
 Proved above (no longer open): `Lawful` for Intersection (incl. the dense count), BufferedUnionScorer
@@ -876,9 +897,10 @@ leaf and is closed under SUM union, Disjunction, Intersection, Exclude and Requi
 carry their total score function as ghost data (`DS.withGhost`); the formal link from those scorer
 types to the driver's `levelDS` / `buildTree` is written for nesting depth 1 (`C13_tree1_*_score`:
 one scoring node over leaves, where no ghost data is needed) and, at depth 2, for intersections of
-SUM unions and required/optional nodes over a leaf and a SUM union
-(`C13_tree2_intersection_of_unions_score`, `C13_tree2_reqopt_union_score`, through
-`C13_intersection_erasure` / `C13_reqopt_erasure`); for the other shapes of depth >= 2 it is open (it needs "erasing the ghost data commutes with every method"
+SUM unions, required/optional nodes over a leaf and a SUM union, and SUM unions of intersections
+(`C13_tree2_intersection_of_unions_score`, `C13_tree2_reqopt_union_score`,
+`C13_tree2_union_of_intersections_score`, through `C13_intersection_erasure` / `C13_reqopt_erasure` /
+`C13_union_erasure`); for the other shapes (Disjunction / Exclude parents, depth >= 3) it is open (it needs "erasing the ghost data commutes with every method"
 for the other parent kinds, as proved for the intersection).
 
 Hypothesis kept: the children of an Intersection hold documents with doc + BLOCK_WINDOW ≤ TERMINATED
@@ -1080,6 +1102,11 @@ example : (buildTree {} 2 (.inter false [.bunion true [.vec [1, 5] 2, .vec [5, 7
 example : (buildTree {} 2 (.reqopt true (.vec [1, 5, 9] 2) (.bunion true [.vec [5, 7] 3, .bits [9] 16 4]))).map
       (fun s => (((levelDS {} 2).score s).1, ((levelDS {} 2).score (implFinal (levelDS {} 2) s [.advance])).1,
         ((levelDS {} 2).score (implFinal (levelDS {} 2) s [.seek 9])).1)) = some (2, 5, 6) := by
+  decide +kernel
+example : (buildTree {} 2 (.bunion true [.inter false [.vec [1, 5, 9] 2, .vec [5, 9] 3], .inter false [.vec [5, 7] 1, .bits [5, 7] 8 4]])).map
+      (fun s => ((levelDS {} 2).doc s, ((levelDS {} 2).score s).1,
+        ((levelDS {} 2).score (implFinal (levelDS {} 2) s [.advance])).1,
+        ((levelDS {} 2).score (implFinal (levelDS {} 2) s [.seekDanger 9])).1)) = some (5, 10, 5, 5) := by
   decide +kernel
 example : Exclude.ok [[5, 7], [9]] 1 = true ∧ Exclude.ok [[5, 7], [9]] 9 = false := by decide
 example : Vec.V (Vec.init [1, 5, 9] 2) [1, 5, 9] := ⟨rfl, by
